@@ -20,12 +20,15 @@ VARIABLES cbs,       \* sequence of [kind |-> "type" | "all", typ |-> t, live |-
           connected, \* Connect was called: events may flow
           lastop,    \* the last three operations (part of the view: every short path through the registry is
                      \* exported - an implementation's maps may depend on the order in which a state was reached)
+          lastev,    \* the type of the last dispatched event before the operations in lastop ("-": none) - part of the view: what an
+                     \* implementation remembers from one dispatch to the next (a cached lookup) must not matter
           hist       \* operations so far, each event with the callbacks that must be invoked
-vars == <<cbs, connected, lastop, hist>>
+vars == <<cbs, connected, lastop, lastev, hist>>
 
-Init == cbs = <<>> /\ connected = FALSE /\ lastop = <<>> /\ hist = <<>>
+Init == cbs = <<>> /\ connected = FALSE /\ lastop = <<>> /\ lastev = "-" /\ hist = <<>>
 
-Push(op) == lastop' = (IF Len(lastop) < 3 THEN lastop ELSE Tail(lastop)) \o <<op>>
+Push(op) == /\ lastop' = (IF Len(lastop) < 3 THEN lastop ELSE Tail(lastop)) \o <<op>>
+            /\ lastev' = IF Len(lastop) = 3 /\ Head(lastop)[1] = "event" THEN Head(lastop)[2] ELSE lastev
 
 Live == {i \in 1..Len(cbs) : cbs[i].live}
 Receivers(t) == {i \in Live : cbs[i].kind = "all" \/ (cbs[i].kind = "type" /\ cbs[i].typ = t)}
@@ -69,7 +72,7 @@ Next ==
 Spec == Init /\ [][Next]_vars
 
 \* two histories that leave the registry in the same state through the same last operation are explored once
-View == <<cbs, connected, lastop>>
+View == <<cbs, connected, lastop, lastev>>
 
 -----------------------------------------------------------------------------
 \* a removed callback is never invoked again, and removing one never affects another subscription
